@@ -43,8 +43,9 @@ Diff(e, o, path) ==
       eattrs == {[name |-> NameXml(a.name), text |-> a.text] : a \in e.attrs}
       oattrs == {[name |-> o.attrs[i].name, text |-> o.attrs[i].text] : i \in 1..Len(o.attrs)}
       etext == IF e.kids = <<>> /\ e.text = "-" THEN "" ELSE e.text
-  IN IF UriStr(e.ns) # o.ns \/ NameXml(e.local) # o.local
-     THEN {[at |-> here, what |-> "element name", exp |-> UriStr(e.ns) \o " " \o NameXml(e.local), got |-> o.ns \o " " \o o.local]}
+      ens == IF e.ns = "unqualified" THEN "" ELSE UriStr(e.ns)       \* an unqualified local element is in no namespace
+  IN IF ens # o.ns \/ NameXml(e.local) # o.local
+     THEN {[at |-> here, what |-> "element name", exp |-> ens \o " " \o NameXml(e.local), got |-> o.ns \o " " \o o.local]}
      ELSE (IF eattrs # oattrs THEN {[at |-> here, what |-> "attributes", exp |-> ToString(eattrs), got |-> ToString(oattrs)]} ELSE {})
           \cup (IF Len(e.kids) # Len(o.kids)
                 THEN {[at |-> here, what |-> "number of children", exp |-> ToString(Len(e.kids)), got |-> ToString(Len(o.kids))]}
